@@ -475,6 +475,11 @@ func main() {
 	if err := os.MkdirAll(work, 0o755); err != nil {
 		infra("%v", err)
 	}
+	// temporary files of the workers (C15 documents handed to child processes, the shared memory
+	// files of the native fuzzer) live and die with the work directory, not in /tmp
+	if tmp := filepath.Join(work, "tmp"); os.MkdirAll(tmp, 0o755) == nil {
+		os.Setenv("TMPDIR", tmp)
+	}
 	code := 2
 	func() {
 		defer os.RemoveAll(work)
